@@ -1,3 +1,6 @@
+#[global_allocator]
+static ALLOC: vf_core::crash::GuardAlloc = vf_core::crash::GuardAlloc;
+
 fn main() {
     vf_serde::main_entry();
 }
